@@ -64,6 +64,60 @@ fn path_marker(p: &Path) -> String {
     s
 }
 
+/// tables made by dotted keys INSIDE a value (`{ p.q = 1 }`) are kind 3: they live and die with the value - a
+/// conversion of the enclosing inline table to a standard table and back leaves them dotted, whereas the dotted tables of
+/// a standard section (kind 2) become plain inline tables when their section is turned into a value
+fn mark_value_borne(n: &mut N, inside: bool) {
+    let here = inside || matches!(n.k, K::Inl(_) | K::Arr(_));
+    if inside {
+        if let K::Tab(_, k) = &mut n.k {
+            if *k == 2 {
+                *k = 3;
+            }
+        }
+    }
+    match &mut n.k {
+        K::Leaf(_) => {}
+        K::Arr(a) | K::Aot(a) => a.iter_mut().for_each(|x| mark_value_borne(x, here)),
+        K::Inl(e) | K::Tab(e, _) => e.iter_mut().for_each(|(_, v)| mark_value_borne(v, here)),
+    }
+}
+
+/// Where a super-table that was first created implicitly (`[a.b]`) and later defined by its own header (`[a]`) sits
+/// among its siblings is not constrained by the specification or the properties (today it moves to the position of
+/// its header).  The reference tree takes the sibling order of the START document from the real one, so that edits
+/// which turn such siblings into ordered values are compared on what the edit did, not on that initial choice.
+fn align_order(n: &mut N, item: &Item) {
+    match &mut n.k {
+        K::Leaf(_) => {}
+        K::Inl(e) | K::Tab(e, _) => {
+            if let Some(t) = item.as_table_like() {
+                let order: Vec<String> = t.iter().map(|(k, _)| k.to_string()).collect();
+                e.sort_by_key(|(k, _)| order.iter().position(|o| o == k).unwrap_or(usize::MAX));
+                for (k, v) in e.iter_mut() {
+                    if let Some(child) = t.get(k) {
+                        align_order(v, child);
+                    }
+                }
+            }
+        }
+        K::Arr(a) => {
+            if let Some(arr) = item.as_array() {
+                for (x, v) in a.iter_mut().zip(arr.iter()) {
+                    align_order(x, &Item::Value(v.clone()));
+                }
+            }
+        }
+        K::Aot(a) => {
+            if let Some(aot) = item.as_array_of_tables() {
+                for (x, t) in a.iter_mut().zip(aot.iter()) {
+                    align_order(x, &Item::Table(t.clone()));
+                }
+            }
+        }
+    }
+}
+
 /// reference tree of a start document, with the markers its text carries
 fn from_model(n: &Node, path: &mut Path, marks: &BTreeSet<String>) -> N {
     let m = path_marker(path);
@@ -297,7 +351,7 @@ pub enum Op {
     /// `ArrayOfTables::retain` keeping the elements at even positions / `clear`
     AotRetainEven(Path),
     AotClear(Path),
-    /// `Table::retain` / `InlineTable::retain` keeping the entries at even positions; `clear` through `dyn TableLike`
+    /// `Table::retain` / `InlineTable::retain` keeping the entries whose key has an even byte sum; `clear` through `dyn TableLike`
     TabRetainEven(Path),
     TabClear(Path),
     IntoInline(Path),
@@ -331,7 +385,7 @@ fn get_mut<'a>(n: &'a mut N, p: &[Seg]) -> &'a mut N {
 /// is the node at `p` inside a value (array / inline table), where only values can live
 fn inside_value(root: &N, p: &[Seg]) -> bool {
     let mut cur = root;
-    if matches!(cur.k, K::Inl(_) | K::Arr(_)) {
+    if matches!(cur.k, K::Inl(_) | K::Arr(_) | K::Tab(_, 3)) {
         return true;
     }
     for s in p {
@@ -340,7 +394,7 @@ fn inside_value(root: &N, p: &[Seg]) -> bool {
             (Seg::Idx(i), K::Arr(a)) | (Seg::Idx(i), K::Aot(a)) => &a[*i],
             _ => panic!(),
         };
-        if matches!(cur.k, K::Inl(_) | K::Arr(_)) {
+        if matches!(cur.k, K::Inl(_) | K::Arr(_) | K::Tab(_, 3)) {
             return true;
         }
     }
@@ -354,6 +408,10 @@ fn all_values(n: &N) -> bool {
         K::Inl(e) => e.iter().all(|(_, v)| all_values(v)),
         _ => false,
     }
+}
+
+fn key_parity(k: &str) -> bool {
+    k.bytes().map(|b| b as usize).sum::<usize>() % 2 == 0
 }
 
 /// can be turned into a value as a whole: values, and tables / arrays of tables made of such
@@ -399,7 +457,7 @@ fn enumerate_ops(root: &N) -> Vec<Op> {
                 }
                 fn sortable(v: &N) -> bool {
                     match &v.k {
-                        K::Tab(ee, 2) => ee.iter().all(|(_, x)| sortable(x)),
+                        K::Tab(ee, 2 | 3) => ee.iter().all(|(_, x)| sortable(x)),
                         _ => v.is_value(),
                     }
                 }
@@ -504,6 +562,8 @@ fn enumerate_ops(root: &N) -> Vec<Op> {
 /// a table becomes a value (inline form) recursively
 fn inline_of(n: &N) -> N {
     match &n.k {
+        // (a table that exists through dotted keys stays dotted inside the value: `p.q = 1` remains `p.q = 1`)
+        K::Tab(e, 3) => N { mark: n.mark.clone(), k: K::Tab(e.iter().map(|(k, v)| (k.clone(), inline_of(v))).collect(), 3) },
         K::Tab(e, _) | K::Inl(e) => N { mark: n.mark.clone(), k: K::Inl(e.iter().map(|(k, v)| (k.clone(), inline_of(v))).collect()) },
         K::Aot(a) | K::Arr(a) => N { mark: n.mark.clone(), k: K::Arr(a.iter().map(inline_of).collect()) },
         K::Leaf(_) => n.clone(),
@@ -552,11 +612,13 @@ fn apply_model(root: &mut N, op: &Op) -> BTreeSet<String> {
         Op::SortValues(p) => {
             let t = get_mut(root, p);
             fn sort_rec(n: &mut N) {
+                let inline_ctx = matches!(n.k, K::Inl(_) | K::Tab(_, 3));
                 if let K::Inl(e) | K::Tab(e, _) = &mut n.k {
                     e.sort_by(|a, b| a.0.cmp(&b.0));
                     for (_, v) in e.iter_mut() {
-                        // (sort_values follows the tables that dotted keys created: they are part of the same section)
-                        if matches!(v.k, K::Tab(_, 2)) {
+                        // (sort_values follows the tables that dotted keys created: they are part of the same section - a
+                        // standard table follows its dotted standard tables, an inline table its dotted inline tables)
+                        if (inline_ctx && matches!(v.k, K::Tab(_, 3))) || (!inline_ctx && matches!(v.k, K::Tab(_, 2))) {
                             sort_rec(v);
                         }
                     }
@@ -699,8 +761,10 @@ fn apply_model(root: &mut N, op: &Op) -> BTreeSet<String> {
             let (K::Inl(e) | K::Tab(e, _)) = &mut t.k else { panic!() };
             let keep_even = matches!(op, Op::TabRetainEven(_));
             let old = std::mem::take(e);
-            for (i, (k, x)) in old.into_iter().enumerate() {
-                if keep_even && i % 2 == 0 {
+            for (k, x) in old.into_iter() {
+                // (a predicate on the key, not on the position: where a re-opened implicit table sits among its siblings
+                // is not constrained, so positions are not a stable way to name entries)
+                if keep_even && key_parity(&k) {
                     e.push((k, x));
                 } else {
                     sub(&x, &mut touched);
@@ -842,18 +906,11 @@ fn apply_real(doc: &mut DocumentMut, op: &Op) {
         }
         Op::AotClear(p) => nav(doc, p).as_array_of_tables_mut().expect("aot").clear(),
         Op::TabRetainEven(p) => {
-            let mut i = 0;
             let it = nav(doc, p);
             if let Some(t) = it.as_table_mut() {
-                t.retain(|_, _| {
-                    i += 1;
-                    (i - 1) % 2 == 0
-                });
+                t.retain(|k, _| key_parity(k));
             } else {
-                it.as_inline_table_mut().expect("inline table").retain(|_, _| {
-                    i += 1;
-                    (i - 1) % 2 == 0
-                });
+                it.as_inline_table_mut().expect("inline table").retain(|k, _| key_parity(k));
             }
         }
         Op::TabClear(p) => nav(doc, p).as_table_like_mut().expect("table-like").clear(),
@@ -876,7 +933,7 @@ fn apply_real(doc: &mut DocumentMut, op: &Op) {
     }
 }
 
-pub const START_DOCS: [&str; 11] = [
+pub const START_DOCS: [&str; 13] = [
     "tc = [ 1, 2, ] # @tc\nml = [\n  1 # @ml0\n  , 2 # @ml1\n  ,\n] # @ml\ne = [] # @e\n",
     "opt.level.size = 1 # @opt.level.size\nopt.level.debug = 2 # @opt.level.debug\nopt.a = 3 # @opt.a\nb = 0 # @b\n[t] # @t\nz.y.x = 1 # @t.z.y.x\nz.y.a = 2 # @t.z.y.a\nz.b = 3 # @t.z.b\n",
     "# ^a\na = 1 # @a\nb = \"x\"   # @b\n# ^c\nc = [ 1, 2 ] # @c\nd = { x = 1, y = 2 } # @d\n",
@@ -890,6 +947,10 @@ pub const START_DOCS: [&str; 11] = [
     "v = 1 # @v\n[t] # @t\ninl = { a = [ 1, 2 ], b = { c = 3 } } # @t.inl\n# trailing comment\n",
     // a table that owns a nested array of tables and a sub-table (conversions have to take them along)
     "[t] # @t\nx = 1 # @t.x\n[[t.v]] # @t.v0\ni = 1 # @t.v0.i\n[[t.v]] # @t.v1\n[t.u] # @t.u\nw = 2 # @t.u.w\n",
+    // inline tables with dotted keys that are not the last entry (conversions have to re-root the paths correctly)
+    "i = { p.q = 1, r = 2, s.t.u = 3, v = 4 } # @i\nz = 0 # @z\n[h] # @h\nj = { a.b = 1, c = 2 } # @h.j\n",
+    // headers out of tree order around an array of tables: a table visited early in the walk has a late position
+    "[a.b] # @a.b\nk = 1 # @a.b.k\n[[p]] # @p0\nn = 1 # @p0.n\n[[p]] # @p1\nn = 2 # @p1.n\n[a] # @a\nj = 3 # @a.j\n",
 ];
 
 /// a wide document: 24 headers whose source order differs from the tree-walk order (ordering of the printed tables
@@ -996,8 +1057,10 @@ pub struct Res {
 pub fn search(start: &str, depth: usize) -> Result<Res, String> {
     let Verdict::Valid { tree, .. } = ref_parse(start) else { return Err(format!("start document invalid: {:?}", start)) };
     let marks: BTreeSet<String> = marker_lines(start).keys().cloned().collect();
-    let model = from_model(&tree, &mut vec![], &marks);
+    let mut model = from_model(&tree, &mut vec![], &marks);
+    mark_value_borne(&mut model, false);
     let doc: DocumentMut = start.parse().map_err(|e: toml_edit::TomlError| e.to_string())?;
+    align_order(&mut model, doc.as_item());
     let text0 = doc.to_string();
     // visited set: sharded, filled concurrently, so that duplicate successors are dropped where they are produced and
     // the states of the last level (never expanded) are not kept at all - memory stays proportional to one frontier
